@@ -221,7 +221,9 @@ theorem worldOk_new (D : SlabID → DigestFn 4) (T addr ctr : Nat) (hT : legalTh
     | (intro p x i hi; simp [World.idxOf, AList.find?] at hi; done)
     | skip
 
-/-- `Array.Insert` through a current handle keeps the global invariant. -/
+/-- `Array.Insert` through a current handle keeps the global invariant.
+    (Projection of `worldOk_arrInsert_all`, Props/C10WAll.lean, which also concludes that ALL current
+    handles stay current and the strong frame; the same for the five theorems below.) -/
 theorem worldOk_arrInsert (D : SlabID → DigestFn 4) (w : World) (p : SlabID) (i : Nat) (v : WVal) (cx : Ctx)
     (w' : World) (cx' : Ctx) (H : WorldOk D w cx.ctr) (hh : HandleOk w p)
     (hv : WValOk w p (maxInlineArr w.T) v) (h : w.arrInsert p i v cx = .ok (w', cx')) :
